@@ -289,6 +289,27 @@ func rulePHLINEAR(c *Ctx, r *Report) {
 		}
 	}
 	r.floor(rule, "leaf serialisations", nLeaf, 3)
+	// 1b. list elements: parameters accumulate in element order (append(acc, elem params...))
+	for _, b := range dr.SerParam.Blocks {
+		for _, in := range b.Instrs {
+			call, ok := in.(*ssa.Call)
+			if !ok {
+				continue
+			}
+			if bi, ok := call.Call.Value.(*ssa.Builtin); ok && bi.Name() == "append" && len(call.Call.Args) == 2 {
+				a0, a1 := c.key(call.Call.Args[0], nil), c.key(call.Call.Args[1], nil)
+				if strings.Contains(a1, "[]*expr.Expression)[") && strings.Contains(a1, "#1") {
+					if strings.HasPrefix(a0, "phi{") {
+						r.ok(rule, "serialiser|list-params-order", c.instrPos(in), "append(accumulated, element params...)")
+					} else {
+						r.bad(rule, "serialiser|list-params-order", c.instrPos(in), "list element parameters are not appended to the accumulated list in element order")
+					}
+				} else if strings.Contains(a0, "[]*expr.Expression)[") && strings.Contains(a0, "#1") {
+					r.bad(rule, "serialiser|list-params-order", c.instrPos(in), "parameters of a list element are placed before those of the earlier elements: they no longer line up with the placeholders")
+				}
+			}
+		}
+	}
 	// 2. RenderParam concatenates lparams then rparams
 	found := false
 	for _, b := range dr.RenderParam.Blocks {
